@@ -94,6 +94,22 @@ def gen_session(rng, kind):
                 evs.append("idle")
         evs.append("idle")
         return "S|%s|c0=0@%s|%s|-|x" % (",".join(opts), items, " ".join(evs))
+    if kind == "c01" and rng.random() < 0.08:
+        # directed: the command is changed WHILE the previous command is still streaming (its reader holds lines the model has not
+        # fetched yet when it is killed): nothing of the previous command may reach the list of the new one
+        cmds = []
+        for cid, name in enumerate(CMDS):
+            n = 120 if cid == 0 else rng.choice([3, 8])
+            items = ["%s-%d.%d" % (rng.choice(WORDS), cid, i) for i in range(n)]
+            if cid == 0:
+                k = 8
+                chunks = ["%d@%s" % (rng.choice([200, 2000, 2000]), ",".join(enc(x) for x in items[j * n // k:(j + 1) * n // k])) for j in range(k)]
+            else:
+                chunks = ["0@" + ",".join(enc(x) for x in items)]
+            cmds.append("%s=%s" % (name, "/".join(chunks)))
+        evs = ["wait:%d" % rng.choice([300, 1500, 4000, 8000]), "add:%d" % ord(rng.choice("12")), "idle"] + \
+              (["bs", "idle"] if rng.random() < 0.3 else [])
+        return "S|interactive%s|%s|%s|-|x" % (rng.choice(["", ",hl=1", ",hl=2"]), ";".join(cmds), " ".join(evs))
     if kind == "c01" and rng.random() < 0.06:
         # directed: started with --regex and rotated out of regex mode (and back): the query is then a fuzzy query — `ac` matches
         # `abc` as a fuzzy term and not as a regular expression
